@@ -285,7 +285,7 @@ func Register(o Oracle, rule, assumption string) {
 		Rule:  rule,
 		Assumptions: []string{
 			"process-crash model: bytes handed to the kernel (write, mmap stores, rename, unlink) survive, user-space buffers do not; the process is really killed with SIGKILL",
-			"crash ordinals are per run (background flush/compaction timing varies), so points are drawn per stratum (file operation kind x file class) from a dry run of the same workload",
+			"crash ordinals are per run (background flush/compaction timing varies), so points are drawn per stratum (file operation kind x file class) from a dry run of the same workload, plus three targeted windows: the 6 operations after every value-log segment creation, the 10 operations after the first/middle/last table-file creation (table complete -> manifest edit -> WAL segment / input tables removed) and the 2 operations on either side of the first and last WAL segment removal",
 			"workloads avoid the recorded same-version-tie findings (C01): plain-API keys are written once, overwrites/deletes use transactions, value-log GC is only combined with layouts that keep data out of the ingest buffer",
 			assumption,
 		},
